@@ -160,7 +160,7 @@ Qed.
 Lemma read_row_enc L oids e vs tail :
   16 <= L -> lenZ oids < 65535 -> wf_row L oids vs = true ->
   read_row L oids e {| b_segs := [enc_row oids vs ++ tail]; b_started := true; b_over := false |} =
-  (RRow vs, {| b_segs := [tail]; b_started := true; b_over := false |}).
+  (CRow vs, {| b_segs := [tail]; b_started := true; b_over := false |}).
 Proof.
   intros HL Hc W. unfold read_row, header_segs. cbn [b_over b_started b_segs].
   unfold enc_row. pose proof (wf_row_length _ _ _ W) as Hlen. pose proof (lenZ_nonneg vs).
@@ -179,7 +179,7 @@ Lemma read_all_rows L oids : forall rows fuel tail,
   (length rows < fuel)%nat ->
   (tail = [] \/ exists junk, tail = copy_trailer ++ junk) ->
   read_all fuel L oids EDone {| b_segs := [flat_map (enc_row oids) rows ++ tail]; b_started := true; b_over := false |}
-  = (rows, REnd).
+  = (rows, CEnd).
 Proof.
   induction rows as [|vs rows IH]; intros fuel tail HL Hc W Hf Ht.
   - destruct fuel; [cbn in Hf; lia|]. cbn [flat_map app read_all].
@@ -215,7 +215,7 @@ Qed.
 Theorem decode_all_roundtrip L oids rows tail :
   16 <= L -> lenZ oids < 65535 -> forallb (wf_row L oids) rows = true ->
   (tail = [] \/ exists junk, tail = copy_trailer ++ junk) ->
-  decode_all L oids EDone [copy_header ++ flat_map (enc_row oids) rows ++ tail] = (rows, REnd).
+  decode_all L oids EDone [copy_header ++ flat_map (enc_row oids) rows ++ tail] = (rows, CEnd).
 Proof.
   intros HL Hc W Ht. unfold decode_all.
   set (fuel := S (length (concat [copy_header ++ flat_map (enc_row oids) rows ++ tail]))).
@@ -233,7 +233,7 @@ Proof.
       rewrite Hs. cbn [app read_full Nat.leb length firstn skipn]. rewrite Hv. reflexivity.
   - cbn [forallb] in W. apply andb_prop in W as [W1 W2].
     assert (R : read_row L oids EDone {| b_segs := [copy_header ++ flat_map (enc_row oids) (vs :: rows) ++ tail]; b_started := false; b_over := false |}
-              = (RRow vs, {| b_segs := [flat_map (enc_row oids) rows ++ tail]; b_started := true; b_over := false |})).
+              = (CRow vs, {| b_segs := [flat_map (enc_row oids) rows ++ tail]; b_started := true; b_over := false |})).
     { pose proof (read_row_enc L oids EDone vs (flat_map (enc_row oids) rows ++ tail) HL Hc W1) as RR.
       unfold read_row in *. cbn [b_over b_started b_segs] in *. rewrite header_skip.
       unfold header_segs in RR. cbn [flat_map]. rewrite <- app_assoc. exact RR. }
